@@ -350,6 +350,11 @@ def _run_impl(case):
         q.connect(ev(kind), kind)
     q.connect(lambda info: live[0] and decs.append(kidx.get(info['key'], -1)), 'decrement')
     q.connect(lambda info: live[0] and second.append(kidx.get(info['key'], -1)))     # a second subscriber, default event
+    from psiaudio import queue as _Q
+    bystander = _Q.FIFOSignalQueue(fs=fs_object(case))
+    bystander.append(np.ones(2), 1)
+    by_events = []
+    bystander.connect(lambda info: by_events.append(1), 'added')
     static = {}
     try:
         static['bad_event'] = None
@@ -460,6 +465,14 @@ def _run_impl(case):
             out.append({'op': 'closest', 'key': -1 if k is None else kidx[k], 'events': list(events)})
         else:
             raise KeyError(o[0])
+    # listeners belong to ONE queue object: a bystander queue created beside this one must neither hear this queue's
+    # notifications nor make this queue's listeners hear its own
+    del events[:]
+    bystander.pop_buffer(2)
+    if events:
+        static['crosstalk'] = f'the listeners of this queue were called by ANOTHER queue object ({events[0][0]})'
+    elif len(by_events) != 1:
+        static['crosstalk'] = f'another queue object received {len(by_events) - 1} notifications of this queue'
     if out:
         out[0]['static'] = static
     return out
@@ -607,6 +620,8 @@ def compare(case, res, mo, ntests=0):
     static = res[0].get('static', {}) if res else {}
     if static.get('bad_event'):
         return static['bad_event']
+    if static.get('crosstalk'):
+        return static['crosstalk']
     if 'max_duration' in static:
         want = max((mk_source(st, k, fs).get_duration() if st['kind'] in GEN_KINDS else st['len'] / fs_object(case))
                    for k, st in enumerate(case['stims']))
